@@ -287,6 +287,9 @@ class Check:
                     changed += [t.gen_constants()]
                     # which exceptions isvalidaa / isvalidcdr3 catch, which positions and letters isvalidcdr3 tests (C18_source_cdr3_*)
                     changed += [body_translator(t.gen_cdr3_rule)]
+            if self.pid == "C09":
+                # scopes and constructor defaults of the six TCR Levenshtein metric classes (C09_source_classes, _defaults)
+                changed += [body_translator(load("gen_lean_tables").gen_tcr_classes)]
             if self.pid == "C20":
                 changed += [load("gen_footprints").main()["changed"]]
             if self.pid in ("C12", "C03"):
